@@ -11,6 +11,10 @@ def jobs(tier, seed):
     n = len(L.override_cases())
     for lo in range(0, n, 6):
         J.append({"id": f"C10/F/layout-override[{lo}:{min(n, lo + 6)}]", "fn": "vverif.contracts.layout:job_overrides", "args": (lo, lo + 6), "functions": L.FUNCS, "engine": "FinEx"})
+    from vverif.contracts import genvc_kernels as GK
+
+    for loc in ("storage", "transient"):
+        J.append({"id": f"C10/G/core.get_element_ptr[{loc}]", "fn": "vverif.contracts.genvc_kernels:job_element_ptr", "args": (loc,), "functions": GK.FUNCS_PTR, "engine": "GenVC"})
     cfgs = ["L-gas", "V-O2", "L-none", "V-none"] if quick else ["L-gas", "L-none", "L-codesize", "V-O2", "V-none", "V-O3", "V-Os"]
     for tid in TS.LAYOUT_SRC:
         for cfg in cfgs:
@@ -23,7 +27,9 @@ def jobs(tier, seed):
 
 def replay(o):
     k = (o.get("replay") or {}).get("kind")
-    for mod in (L, TS):
+    from vverif.contracts import genvc_kernels as GK
+
+    for mod in (L, TS, GK):
         if k in mod.REPLAY:
             return mod.REPLAY[k](o)
     return {"reproduced": None, "detail": "no native replay"}
